@@ -37,7 +37,11 @@ Inductive pv_entry : Type :=
 | PvMalformed                  (* any other decoding error *)
 | PvList (l : list N).         (* RLP byte string = the advertised versions *)
 
-Definition vcache := N -> option N.      (* node (opaque id) -> cached version; expiry = any smaller map *)
+(* The cache key is the identity of the RECORD OBJECT the call is made with (the code keys the cache by *enode.Node
+   pointer): a peer that republishes its record is a NEW key, whatever its node id.  rec_key names such an object by
+   (node id, record sequence number). *)
+Definition vcache := N -> option N.      (* record object -> cached version; expiry = any smaller map *)
+Definition rec_key (id seq : N) : N := id * 18446744073709551616 + seq.      (* seq is a uint64 *)
 Definition vcache_set (c : vcache) (node v : N) : vcache := fun n => if n =? node then Some v else c n.
 
 (* getOrStoreHighestVersion: result and the cache afterwards.  own = p.currentVersions. *)
